@@ -10,16 +10,16 @@ CC_NOTE = ("TLC explores the SlottedCC model exhaustively within the stated cons
 
 CHECKS = {
  "C01": ("SlottedCC.tla + TLC exhaustive, replay of all linearisations into the real EGraph (spec->impl conformance)",
-         "every equality / dropped slot / symmetry the implementation reports is derivable in the specification's closure, on every state of the bounded universes U1-U3", "5 C01"),
+         "every equality / dropped slot / symmetry the implementation reports is derivable in the specification's closure, on every state of the bounded universes U1-U6 and the seeded random universes; alarms are re-confirmed by a checked proof search", "5 C01"),
  "C02": ("SlottedCC.tla + TLC exhaustive, replay of all linearisations into the real EGraph (spec->impl conformance)",
          "every equality, redundancy and symmetry the specification's closure derives is reported by the implementation as soon as union returns", "5 C02"),
- "C08": ("SlottedCC.tla + TLC exhaustive state graph replayed in default and checks builds; panic capture, EGraph::check() and public-API consistency predicates after every call",
+ "C08": ("SlottedCC.tla + TLC exhaustive state graph replayed in default and checks builds; panic capture, EGraph::check() and public-API consistency predicates after every call; EGraphOp.tla (operational model: union-find with slot maps, shrink_slots, move_to, handle_pending) checked by TLC to refine SlottedCC and to satisfy the structural invariants of check.rs; recorded rewriting runs without panic",
          "no panic, check() passes and the structure is consistent after every call of every linearisation of every TLC state", "5 C08"),
  "C09": ("SlottedCC.tla (Represented/ClassOf/NonRed) + TLC exhaustive, lookup/add compared on every ground term of the universe in every state",
          "lookup succeeds exactly for represented terms, re-insertion creates nothing and agrees with lookup, renaming commutes", "5 C09"),
- "C11": ("SlottedCC.tla is name-free; every TLC state replayed under 5 namings (numeric asc/desc, textual fwd/rev interning, $f<big>) and observations compared with each other and the spec",
+ "C11": ("SlottedCC.tla is name-free; every TLC state replayed under 9 namings (numeric asc/desc, textual fwd/rev interning, $f<big>, $f<next> up front / lazily, two mixtures of textual, numeric and $f<n> names whose order interleaves) and observations compared with each other and the spec",
          "observations of a history are identical under all namings", "5 C11"),
- "C12": ("SlottedCC.tla invariant IncrementalIsBatch (TLC, all orders) + replay of all orders x orientations x insertion modes per state",
+ "C12": ("SlottedCC.tla invariant IncrementalIsBatch (TLC, all orders) + replay of all orders x orientations x insertion modes per state; EGraphOp.tla (operational model with the pending list served fifo and lifo) checked by TLC to reach the congruence of SlottedCC for every order of equations",
          "all linearisations of one equation set give the one observation of the specification state", "5 C12"),
  "C13": ("SlottedCC.tla action property Monotone (TLC) + replay keeping every handle and every earlier equality along every path",
          "equalities never lost, old handles stay usable and denote their term, slot sets shrink, progress measure moves in its documented direction", "5 C13"),
@@ -29,7 +29,7 @@ SMALL_NOTE = ("TLC explores the small specification exhaustively within the stat
               "behaviours; the Rust type is bound to it by replaying every emitted behaviour (and, where stated, by TLC "
               "validating recorded traces of the real code). Trusted: TLC, the JSON encoding, the harness.")
 CHECKS.update({
- "C19": ("SlotMap.tla + TLC: all 625 maps over 4 slots, transition table replayed along all operation sequences <= 5 on the real SlotMap; binary ops over all 64x64 pairs; TraceSlotMap.tla validates recorded random long sequences (impl->spec)",
+ "C19": ("SlotMap.tla + TLC: all 625 maps over 4 slots, transition table replayed along all operation sequences <= 5 on the real SlotMap; binary ops over all 64x64 pairs; every map built from every listing order (LawFromSeq); concrete slots numeric and mixed kinds; TraceSlotMap.tla validates recorded random long sequences (impl->spec)",
          "every public SlotMap operation agrees with the reference finite map; eq/hash/ord are construction-path independent", "5 C19"),
  "C17": ("SlotTable.tla + TLC: all interleavings of fresh/numeric/named to depth 4/5 with invariants FreshIsNew, NamesInjective, RoundTrip; every behaviour replayed in a fresh thread",
          "fresh slots are new, distinct names denote distinct slots, print/parse round-trips, on every interleaving of the bounded model", "5 C17"),
@@ -41,9 +41,9 @@ CHECKS["C16"] = ("Shape.tla (scoped reference shape, occurrence lists) + TLC: re
 CHECKS["C18"] = ("Parse.tla (tokenizer, total parser, printer) + TLC: all strings <=5/6 tokens and <=5/6 characters as state space with invariants Total/RoundTrip; harness enumerates the same strings against the emitted accepted-language table; TraceParse.tla judges recorded parses of mutated long texts (impl->spec)",
          "the parser accepts exactly the specification's language with exactly its ASTs, never panics, and print->parse is the identity, on every enumerated string and every recorded mutated text", "5 C18")
 NOTES = {"C19": SMALL_NOTE, "C17": SMALL_NOTE, "C10": SMALL_NOTE, "C16": SMALL_NOTE, "C18": SMALL_NOTE}
-CHECKS["C06"] = ("SlottedCC.tla MinCost (least fixpoint over the partition's e-node structure, 3 strictly monotone cost functions) + TLC exhaustive; extraction from every represented invocation in every replayed final state compared with it",
+CHECKS["C06"] = ("SlottedCC.tla MinCost (least fixpoint over the partition's e-node structure, 3 strictly monotone cost functions) + TLC exhaustive; extraction from every represented invocation (and every old handle) in every replayed final state compared with it; recorded rewriting runs (default and explanations build, ExtractionSubst) must not panic in the extractor",
          "extracted terms are represented in the queried invocation, their recomputed cost equals the reported best cost and the specification's minimum, free slots are query arguments or brand-new", "5 C06")
-CHECKS["C05"] = ("SlottedCC.tla state graph replayed; in every final state an 18-pattern / 5-multi-pattern pool is matched and every returned substitution is instantiated (harness representatives) and looked up; fingerprint before/after",
+CHECKS["C05"] = ("SlottedCC.tla state graph replayed; in every final state a 25-pattern / 14-multi-pattern pool is matched and every returned substitution is instantiated (harness representatives) and looked up; fingerprint before/after",
          "every reported match binds all variables and denotes a represented term, multi-pattern equations hold between the bound classes, matching changes nothing", "5 C05")
 CHECKS["C14"] = ("SlottedCC.tla MinCost for astsize/depth = least fixpoint of make/merge; analysis (min size, min depth) read at every class after every call of every replayed path and compared",
          "analysis data of every class equals the specification's least fixpoint after every call (min-size, min-depth); constant folding with modify hook: see level_note", "5 C14")
@@ -55,7 +55,7 @@ RW_NOTE = ("TLC checks the model-level facts (rule validity over GF(p), Runner.t
            "representative terms built from enodes(), the independent fingerprint.")
 CHECKS["C03"] = ("Model.tla (GF(p) semantics, Terms.Inst) + MC_Model: every pool rule valid for all admissible substitutions/environments; TraceRewrite.tla validates recorded rewriting runs: every class member evaluated under ALL environments",
          "with model-valid rules every e-node of every class and the start term denote one function of the class slots, independent of other slots, on all recorded runs (both substitution methods, conditional rules, binder-moving rules)", "5 C03")
-CHECKS["C15"] = ("Runner.tla/RunnerOps.tla model-checked (bounded termination, truthful limit reasons, liveness); TraceRewrite.tla validates every recorded iteration/stop/report of Runner::run, run_eqsat and apply_rewrites against the specified stop decision using an independent fingerprint",
+CHECKS["C15"] = ("Runner.tla/RunnerOps.tla model-checked (bounded termination, truthful limit reasons incl. time limits on an abstract clock, liveness); TraceRewrite.tla validates every recorded iteration/stop/report of Runner::run, run_eqsat and apply_rewrites against the specified stop decision using an independent fingerprint",
          "apply_rewrites returns false only when nothing observable changed; every stop reason and report field is the one the control-loop specification allows; saturation re-checked", "5 C15")
 NOTES_EXTRA["C03"] = RW_NOTE
 NOTES_EXTRA["C15"] = RW_NOTE
@@ -63,8 +63,8 @@ NOTES_EXTRA["C14"] = CC_NOTE + " Constant folding with its modify hook: recorded
 CHECKS["C07"] = ("Proofs.tla (term-level proof checker: refl/sym/trans/cong up to per-side injective renamings, explicit leaves, conclusion) + TLC validating every recorded explanation DAG of the explanations build node by node (TraceProofs.tla, impl->spec)",
          "every explanation returned for equal pool terms in every SlottedCC history is a valid proof of the queried equation whose leaves are the asserted equations with their justifications; a panic is a violation", "5 C07")
 NOTES_EXTRA["C07"] = ("TLC evaluates Proofs.tla on every recorded proof node; histories are the TLC states of the SlottedCC universes. Trusted: TLC, get_syn_expr as the "
-                      "term reading of proof equations, the recorder. Rule-application leaves are not exercised (justified unions only).")
-CHECKS["C20"] = ("Threads.tla (thread-local slot tables, global symbol interner) + TLC: all interleavings of main history and noise thread with invariant Reproducible; every schedule replayed with real threads in a fresh process, transcript (incl. dump) compared byte for byte with the solo run",
+                      "term reading of proof equations, the recorder. Rule-application leaves are exercised through logged rule applications.")
+CHECKS["C20"] = ("Threads.tla (thread-local slot tables, global symbol interner, global wall clock) + TLC: all interleavings of main history and noise thread with invariant Reproducible; every schedule replayed with real threads in a fresh process, transcript (incl. dump) compared byte for byte with the solo run",
          "the main thread's transcript is identical under every interleaving with unrelated work in another thread and across fresh processes", "5 C20")
 NOTES_EXTRA["C20"] = ("TLC enumerates the schedules and checks the model's invariant; the Rust code is bound by executing every schedule. Trusted: TLC, the "
                       "channel hand-shake, byte comparison of stdout. Address/hash-seed independence is only exercised (fresh processes).")
@@ -78,12 +78,14 @@ man = {
    "enable": "rustflags in /verif/harness/.cargo/config.toml: --cfg slotted_egraphs_verif --check-cfg cfg(slotted_egraphs_verif); the harness depends on /repo by path and patches slotted-egraphs-derive to /repo/slotted-egraphs-derive",
    "baseline_off_cmd": "cd /repo && cargo test --workspace --no-fail-fast --offline",
    "source_commits": ["ec9eabe"],
-   "fix_commits": ["4dcce54", "d4651f6", "1e93cc9", "b27661e", "b251537", "cfcbc3c", "0360727", "c3020f8", "2a38624", "2db9378", "9af976a", "429dfd3", "20cc4b9"],
+   "fix_commits": ["3e314d3", "4dcce54", "d4651f6", "1e93cc9", "b27661e", "b251537", "cfcbc3c", "0360727", "c3020f8", "2a38624", "2db9378", "9af976a", "429dfd3", "20cc4b9"],
    "add_only": True,
  },
  "engines": [
    {"name": "tlc-slottedcc", "path": "spec/SlottedCC.tla", "serves_properties": list(CHECKS.keys()),
     "kind_free_text": "explicit TLA+ specification (spec/*.tla) model-checked by TLC; REPLAY tables emitted per state"},
+   {"name": "tlc-egraphop", "path": "spec/EGraphOp.tla", "serves_properties": ["C08", "C12"],
+    "kind_free_text": "operational TLA+ model of the e-graph algorithm, model-checked by TLC to refine SlottedCC (generated root with the REPLAY table as constant)"},
    {"name": "cc_replay", "path": "harness/src/bin/cc_replay.rs", "serves_properties": list(CHECKS.keys()),
     "kind_free_text": "Rust replayer: drives the real EGraph along every linearisation of every TLC state and compares observations"},
  ],
